@@ -63,7 +63,7 @@ fn main() {
             let seed = arg(&args, "--seed").and_then(|x| x.parse().ok()).unwrap_or(1);
             let runs = arg(&args, "--runs").and_then(|x| x.parse().ok()).unwrap_or(100);
             let out = arg(&args, "--out").expect("--out");
-            huff::cmd_cols(seed, runs, &out);
+            huff::cmd_cols(seed, runs, &out, args.iter().any(|a| a == "--as-stack"));
         }
         "huff-gen" => {
             let seed = arg(&args, "--seed").and_then(|x| x.parse().ok()).unwrap_or(1);
